@@ -113,6 +113,8 @@ def compare_piecewise(ctx, interp, derived, t_atom, spec_fn, rule, oid, desc, wh
                 continue
             got = va.p
             exp = spec_fn(t, reg)
+            if exp is None:
+                continue            # region not constrained (e.g. entries beyond the diagonal's length)
             if extra_factor is not None:
                 exp = exp * extra_factor
             single = None
@@ -346,40 +348,9 @@ def analyse(ctx, repo, prop):
                                       "KERNEL", f"{tag}.ray.value", "radial border = area_o * R_k^2", where, "my_diags", extent=te)
             else:
                 # distances: r_{k+1} - r_k for k <= n_t-2 ; entries of the last shell are beyond the diagonal's length
-                def spec(tt, reg):
-                    if reg == 2:
-                        return None
-                    return r(tt + 1) - r(tt)
-                elv = el
-                if isinstance(elv, Num):
-                    elv = Term("piecewise", [TupleV([Num(0), Num(te), elv])], {"idx": Num(t)})
-                ok = True
-                if T._is_pw(elv):
-                    ref = T._pw_refine(interp, elv, partition(t))
-                    if ref is None:
-                        ctx.inconclusive("KERNEL", f"{tag}.ray.value", "radial distance pieces not comparable", where, witness=vstr(elv)[:300])
-                        ok = False
-                    else:
-                        for lo, ln, va, region in ref:
-                            reg = int(region.p.as_const())
-                            if reg == 2 or (ln.is_const() and ln.as_const() <= 0):
-                                continue     # last shell: not on the diagonal (diags truncates)
-                            ctx.instance("KERNEL")
-                            exp = r(t + 1) - r(t)
-                            got = va.p if isinstance(va, Num) else None
-                            if got is not None and ln == Poly.const(1):
-                                got = got.subs({ta: lo})
-                                exp = exp.subs({ta: lo})
-                            if got is None or got != exp:
-                                ok = False
-                                ctx.violate("KERNEL", f"{tag}.ray.value", "radial distance between (k,o) and (k+1,o) is not r_{k+1} - r_k",
-                                            where, "increments = self.t_grid.get_increments()[1:]",
-                                            witness=f"derived {vstr(va)[:300]} ; expected {exp.pretty()}")
-                        if ok:
-                            ctx.ok("KERNEL", f"{tag}.ray.value", "radial distance between (k,o) and (k+1,o) is r_{k+1} - r_k for every k <= n_t-2",
-                                   where, derived=vstr(elv)[:200])
-                else:
-                    ctx.inconclusive("KERNEL", f"{tag}.ray.value", "radial distance values not derived", where, witness=contains_top(elv) or vstr(elv)[:300])
+                compare_piecewise(ctx, interp, el, ta, lambda tt, reg: None if reg == 2 else r(tt + 1) - r(tt),
+                                  "KERNEL", f"{tag}.ray.value", "radial distance between (k,o) and (k+1,o) is r_{k+1} - r_k for every k <= n_t-2",
+                                  where, "increments = self.t_grid.get_increments()[1:]", extent=te)
     # ---------------- lateral part
     bm_term, bm_frozen = lat
     bd = block_diag(ctx, interp, bm_term, where, tag)
